@@ -54,8 +54,12 @@ def gen_text(rng, me, faulty=None):
         r = rng.random()
         if r < 0.4:
             lines.append("class %s%d;" % (tag, i))
-        elif r < 0.6:
+        elif r < 0.5:
             lines.append("def d%s%d : %s%d;" % (tag.lower(), i, tag, rng.randrange(0, 3)))
+        elif r < 0.6:
+            # a class of ANOTHER file: found or not depending on what was included before this line (in an include
+            # cycle: on which member is the root)
+            lines.append("def x%s%d : %s%d;" % (tag.lower(), i, rng.choice(others)[0].upper(), rng.randrange(0, 2)))
         elif r < 0.75:
             lines.append("// é€\U0001F600 comment")
         else:
@@ -133,6 +137,70 @@ CORPUS = [
 ]
 
 
+# include cycles whose diagnostics depend on which member is the root; the root moves between the members
+CYCLE_A = 'include "b.td"\nclass X;\n'
+CYCLE_B = 'include "a.td"\ndef d : X;\n'
+CORPUS += [
+    {"disk": {"a.td": CYCLE_A, "b.td": CYCLE_B},
+     "steps": [{"open": "a.td", "text": CYCLE_A}, {"open": "b.td", "text": CYCLE_B}]},
+    {"disk": {"a.td": CYCLE_A, "b.td": CYCLE_B},
+     "steps": [{"open": "b.td", "text": CYCLE_B}, {"open": "a.td", "text": CYCLE_A}, {"change": "b.td", "text": CYCLE_B},
+               {"change": "a.td", "text": CYCLE_A}]},
+    {"disk": {"a.td": 'include "b.td"\nclass A0;\ndef p : C0;\n', "b.td": 'include "c.td"\nclass B0;\ndef q : A0;\n',
+              "c.td": 'include "a.td"\nclass C0;\ndef r : B0;\n'},
+     "steps": [{"open": "a.td", "text": 'include "b.td"\nclass A0;\ndef p : C0;\n'},
+               {"open": "c.td", "text": 'include "a.td"\nclass C0;\ndef r : B0;\n'},
+               {"open": "b.td", "text": 'include "c.td"\nclass B0;\ndef q : A0;\n'}]},
+]
+
+# "tail" histories: settled up to the last two notifications, which arrive back to back; a hold (armed at the
+# penultimate notification) parks its diagnostics task before / while it publishes until the main loop has
+# started on the last notification: the batch of the penultimate notification must still do its clearing
+TAIL_HOLDS = [(pt, until) for until in ("main.barrier.before", "main.barrier.after", "main.vfs_write.before")
+              for pt in ("task.start", "task.published_files.lock", "task.vfs_read.diagnostics", "task.vfs_acquired")]
+CORPUS_TAIL = [
+    {"disk": {}, "steps": [{"open": "a.td", "text": "def x : Missing;\n"}, {"open": "b.td", "text": "class B;\n"},
+                           {"change": "b.td", "text": "class B;\nclass B2;\n"}]},
+    {"disk": {"c.td": "class ;\n"},
+     "steps": [{"open": "a.td", "text": 'include "c.td"\ndef x : Nope;\n'}, {"change": "a.td", "text": "class A;\n"},
+               {"change": "a.td", "text": "class A;\ndef y : A;\n"}]},
+]
+
+
+def tail_steps(h):
+    """wait_idle after every notification except between the last two; returns (steps, index of the penultimate
+    notification in the step list)"""
+    idx = [i for i, st in enumerate(h["steps"]) if "open" in st or "change" in st]
+    out, arm = [], 0
+    for i, st in enumerate(h["steps"]):
+        if len(idx) >= 2 and i == idx[-2]:
+            arm = len(out)
+        out.append(st)
+        if ("open" in st or "change" in st) and not (len(idx) >= 2 and i == idx[-2]):
+            out.append({"wait_idle": True})
+    return out, arm
+
+
+def tail_holds(k, arm):
+    pt, until = TAIL_HOLDS[k % len(TAIL_HOLDS)]
+    return [{"point": pt, "until": until, "max_ms": 300, "arm_after_step": arm, "count": 1}]
+
+
+def has_include_cycle(files):
+    import re
+    g = {p: [q for q in re.findall(r'include "([^"]+)"', t) if q in files] for p, t in files.items()}
+    state = {}
+
+    def dfs(u):
+        state[u] = 1
+        for v in g[u]:
+            if state.get(v) == 1 or (v not in state and dfs(v)):
+                return True
+        state[u] = 2
+        return False
+    return any(p not in state and dfs(p) for p in g)
+
+
 def overlays(h):
     """workspace state after each notification: (files dict, root)"""
     files = dict(h["disk"])
@@ -171,6 +239,13 @@ def expected_maps(bindir, histories):
 
 
 def session_script(h, mode, holds=None):
+    if mode == "tail":
+        steps, arm = tail_steps(h)
+        if holds is None:
+            holds = tail_holds(h.get("tail_k", 0), arm)
+            h["holds"] = holds
+        return {"files_on_disk": [[p, t] for p, t in sorted(h["disk"].items())], "mode": "burst", "watchdog_ms": 8000,
+                "quiet_ms": 300, "hard_ms": 60000, "steps": sl.cap_in_flight(steps + [{"wait_idle": True}]), "holds": holds}
     return {"files_on_disk": [[p, t] for p, t in sorted(h["disk"].items())], "mode": mode, "watchdog_ms": 8000,
             "quiet_ms": 300, "hard_ms": 60000,
             "steps": sl.cap_in_flight(h["steps"] + ([{"wait_idle": True}] if mode == "burst" else [])),
@@ -279,17 +354,24 @@ def run(ctx):
     rng = ctx.rng
     n_hist = 160 if ctx.quick else 4000
     hists = [dict(h, mode="settled") for h in CORPUS] + [dict(h, mode="burst") for h in CORPUS]
+    hists += [dict(h, mode="tail", tail_k=k) for h in CORPUS_TAIL for k in range(len(TAIL_HOLDS))]
     for i in range(n_hist):
         r = i % 4
-        h = gen_history(rng, ctx.quick, requests=(r >= 2))
-        h["mode"] = "settled" if r < 2 else "burst"
-        h["holds"] = reorder_holds(i // 4) if r == 3 else None
+        h = gen_history(rng, ctx.quick, requests=(r == 2))
+        if r < 2:
+            h["mode"], h["holds"] = "settled", None
+        elif r == 2:
+            h["mode"], h["holds"] = "burst", None
+        elif (i // 4) % 2 == 0:
+            h["mode"], h["holds"] = "burst", reorder_holds(i // 8)
+        else:
+            h["mode"], h["holds"], h["tail_k"] = "tail", None, i // 8
         hists.append(h)
     maps = expected_maps(bindir, hists)
     scripts = [session_script(h, h["mode"], h.get("holds")) for h in hists]
     outs = sl.run_sessions(bindir, scripts)
 
-    stats = {"histories": 0, "notifications": 0, "publications": 0, "settled": 0, "burst": 0, "burst_with_holds": 0, "requests_interleaved": 0,
+    stats = {"histories": 0, "notifications": 0, "publications": 0, "settled": 0, "burst": 0, "burst_with_holds": 0, "tail_burst_with_holds": 0, "include_cycles": 0, "requests_interleaved": 0,
              "files_that_left_workspace": 0, "ide_panics_skipped": 0, "hangs": 0, "idle_points_checked": 0}
     usable, maps_list = [], []
     oracle_fail, corr_fail, samples = [], [], []
@@ -308,11 +390,13 @@ def run(ctx):
         stats["histories"] += 1
         stats["notifications"] += n
         stats["requests_interleaved"] += sum(1 for st in h["steps"] if "request" in st)
-        stats["settled" if h["mode"] == "settled" else ("burst_with_holds" if h.get("holds") else "burst")] += 1
+        stats["include_cycles"] += 1 if has_include_cycle(overlays(h)[-1][0]) else 0
+        stats["settled" if h["mode"] == "settled" else ("tail_burst_with_holds" if h["mode"] == "tail" else
+              ("burst_with_holds" if h.get("holds") else "burst"))] += 1
         stream = observed_stream(out)
         stats["publications"] += len(stream)
         bad = oracle(stream, ms[-1], n)
-        if not bad and h["mode"] == "settled":
+        if not bad and h["mode"] in ("settled", "tail"):
             # the property holds at EVERY idle point: the history so far is a history too
             for sent, pre in idle_prefixes(out):
                 b2 = oracle(pre, ms[sent - 1], sent)
